@@ -503,8 +503,17 @@ def sel_c18(mm):
     return bool(_tags(mm) & {"panic", "alloc", "idem", "wire", "crash"})
 
 
+def mc_dyn(ctx):
+    # the scope predicate is well-chosen: JsonOf is injective on in-scope values of every model shape (plus shapes
+    # around null-in-Option, arities 0/1 and unit payloads), and the statement's own examples fall on the right side
+    insts = [(1, 2)] + ([(2, 1)] if ctx.tier == "thorough" else [])
+    for depth, maxseq in insts:
+        tlc_mc(ctx, f"dyn-scope-d{depth}s{maxseq}", "MC_Dyn", tmpl("MC_Dyn", Depth=depth, MaxSeq=maxseq), workers=8, timeout=ctx.pick(600, 1800))
+
+
 def run_c17(ctx):
     mc_wire(ctx)          # Enc/Dec, on which the relation rests
+    mc_dyn(ctx)
     dyn_agree(ctx)
 
 
